@@ -326,8 +326,8 @@ impl<T: Config> P2PSession<T> {
             return Ok(requests);
         }
 
-        let deadline = Instant::now() + timeout;
-        while Instant::now() < deadline {
+        let start = Instant::now();
+        while Instant::now().duration_since(start) < timeout {
             self.poll_remote_clients();
             if self.lockstep_current_frame_confirmed() {
                 return self.advance_frame_after_poll();
